@@ -268,17 +268,118 @@ def run_c02(tier):
             if dec != canon_model(c, ans[2 * i + 1]):
                 chk.correspondence_mismatch('Py.decode = Message.decode', dict(casej, data=enc['bytes']), dec, ans[2 * i + 1])
         long_arrays(chk, corpus)
+        directed_c02(chk)
     finally:
         corpus.close()
     return chk.finish()
 
 
 def classify_c02(case, detail):
-    """D49: an array / bytes field with more than 65536 elements encodes, but decode refuses its counter"""
+    """D49: an array / bytes field with more than 65536 elements encodes, but decode refuses its counter;
+    D56: a greedy array of structs without members cannot be counted back; D57: a never-assigned bytes field reads '' (str),
+    the decoded one b''; D58: a float field keeps the assigned Python number, the decoded one is rounded to the field's width"""
     dec = detail.get('decoded')
     if case.get('longest_array', 0) > 65536 and isinstance(dec, dict) and dec.get('exc') == 'ProphyError':
         return 'D49'
+    if case.get('directed') in ('D56', 'D57', 'D58') and detail.get('signature_ok'):
+        return case['directed']
     return None
+
+
+def handwritten(descriptors):
+    """hand-written message classes: [(name, 'struct', [(field, type expr)])] evaluated in order; returns {name: class}"""
+    import prophy
+    ns = {'prophy': prophy}
+    for name, fields in descriptors:
+        desc = [(f, eval(t, ns)) for f, t in fields]    # noqa: S307 (literals of this file)
+        ns[name] = prophy.with_metaclass(prophy.struct_generator, prophy.struct).__class__(
+            name, (prophy.with_metaclass(prophy.struct_generator, prophy.struct),), {'_descriptor': desc})
+    return ns
+
+
+def with_timeout(seconds, fn):
+    """('ok', result) | ('exc', class name, message) | ('timeout',) - the call is interrupted after `seconds`"""
+    import signal
+
+    class _Timeout(BaseException):
+        pass
+
+    def on_alarm(signum, frame):
+        raise _Timeout()
+    old = signal.signal(signal.SIGALRM, on_alarm)
+    signal.setitimer(signal.ITIMER_REAL, seconds)
+    try:
+        return ('ok', fn())
+    except _Timeout:
+        return ('timeout',)
+    except Exception as ex:  # noqa
+        return ('exc', py_impl.exc_class(ex), str(ex)[:200])
+    finally:
+        signal.setitimer(signal.ITIMER_REAL, 0)
+        signal.signal(signal.SIGALRM, old)
+
+
+def directed_c02(chk):
+    """values the corpus generator cannot produce: fields never assigned, Python numbers a float field cannot hold, elements
+    without members (hand-written descriptors, both byte orders; attribute equality as a user sees it)"""
+    import struct as pystruct
+    hand = [
+        ('BytesBound', [('n', 'prophy.u32'), ('b', 'prophy.bytes(bound="n")')]),
+        ('BytesLimited', [('n', 'prophy.u32'), ('b', 'prophy.bytes(bound="n", size=4)')]),
+        ('BytesGreedy', [('a', 'prophy.u32'), ('b', 'prophy.bytes()')]),
+        ('BytesFixed', [('b', 'prophy.bytes(size=4)')]),
+        ('Floats', [('f', 'prophy.r32'), ('d', 'prophy.r64'), ('n', 'prophy.u32'), ('a', 'prophy.array(prophy.r32, bound="n")')]),
+        ('Empty', []),
+        ('GreedyEmpty', [('a', 'prophy.u32'), ('g', 'prophy.array(Empty)')]),
+    ]
+    ns = handwritten(hand)
+    DESCRIPTORS = {n: repr(f) for n, f in hand}
+
+    def roundtrip(kind, cls, fill, fields, e, signature):
+        x = cls()
+        fill(x)
+        casej = {'schema': 'hand-written descriptor: ' + DESCRIPTORS[cls.__name__],
+                 'type': cls.__name__, 'endianness': e, 'directed': kind}
+        chk.count((cls.__name__, kind, e), True)
+        chk.bump('directed:' + kind)
+        res = with_timeout(20, lambda: (lambda data: (data, cls().decode(data, e)))(x.encode(e)))
+        if res[0] != 'ok':
+            chk.property_violation(casej, {'what': 'decode(encode(x)) did not return: %s' % (res,)})
+            return
+        data, size = res[1]
+        y = cls()
+        y.decode(data, e)
+        diffs = {}
+        for f in fields:
+            a, b = getattr(x, f), getattr(y, f)
+            a, b = (list(a), list(b)) if hasattr(a, '__iter__') and not isinstance(a, (str, bytes)) else (a, b)
+            if isinstance(a, list) and a and hasattr(a[0], 'encode') and not isinstance(a[0], (str, bytes)):
+                a, b = len(a), len(b)
+            if a != b or type(a) is not type(b) and not isinstance(a, (int, float)):
+                diffs[f] = [repr(a), repr(b)]
+        if size != len(data):
+            chk.property_violation(casej, {'what': 'decode consumed %d of %d bytes' % (size, len(data))})
+        elif diffs:
+            chk.property_violation(casej, {'what': 'fields of the decoded message differ from the encoded one', 'fields [sent, decoded]': diffs,
+                                           'encoded': data.hex(), 'signature_ok': signature(x, y, diffs)}, classify_c02)
+        elif y.encode(e) != data:
+            chk.property_violation(casej, {'what': 're-encoding the decoded message differs'})
+
+    def r32(v):
+        return pystruct.unpack('<f', pystruct.pack('<f', v))[0]
+
+    for e in ENDIAN:
+        for name in ('BytesBound', 'BytesLimited', 'BytesGreedy'):
+            roundtrip('D57', ns[name], lambda x: None, ['b'], e,
+                      lambda x, y, d: list(d) == ['b'] and x.b == '' and y.b == b'')
+        roundtrip('assigned-bytes', ns['BytesBound'], lambda x: setattr(x, 'b', b'ab'), ['b'], e, lambda x, y, d: False)
+        roundtrip('assigned-bytes', ns['BytesFixed'], lambda x: setattr(x, 'b', b'abcd'), ['b'], e, lambda x, y, d: False)
+        roundtrip('D58', ns['Floats'], lambda x: (setattr(x, 'f', 0.1), setattr(x, 'd', 2 ** 53 + 1), x.a.append(16777217)), ['f', 'd', 'a'], e,
+                  lambda x, y, d: y.f == r32(0.1) and y.d == float(2 ** 53 + 1) and list(y.a) == [r32(16777217)])
+        roundtrip('representable-floats', ns['Floats'], lambda x: (setattr(x, 'f', 0.5), setattr(x, 'd', 0.1), x.a.append(-3.25)), ['f', 'd', 'a'], e,
+                  lambda x, y, d: False)
+        roundtrip('D56', ns['GreedyEmpty'], lambda x: (setattr(x, 'a', 7), x.g.add(), x.g.add()), ['a', 'g'], e,
+                  lambda x, y, d: list(d) == ['g'] and len(y.g) == 0)
 
 
 def long_arrays(chk, corpus):
@@ -360,10 +461,67 @@ WORDS = [0, 1, 2, 255, 256, 65535, 65536, 65537, 2 ** 28, 2 ** 28 + 1, 2 ** 31 -
 
 
 def classify_c06(case, detail):
-    """known finding D21: the decoded greedy tail does not end aligned (exception documented in C02)"""
+    """known finding D21: the decoded greedy tail does not end aligned (exception documented in C02);
+    D56: counted arrays of structs without members yield elements with no bytes behind them;
+    D60: RecursionError when the schema nests deeper than about half the interpreter's recursion limit"""
     if detail.get('what', '').startswith('fixpoint') and detail.get('greedy_aligned') is False:
         return 'D21'
+    if case.get('directed') == 'D56' and detail.get('elements', 0) > 16 * detail.get('input_bytes', 1 << 60):
+        return 'D56'
+    if case.get('directed') == 'D60' and detail.get('exc') == 'RecursionError' and case.get('depth', 0) >= 300:
+        return 'D60'
     return None
+
+
+def directed_c06(chk):
+    """schemas the corpus generator cannot produce (hand-written descriptors): elements of zero size, very deep nesting"""
+    import sys
+    ns = handwritten([
+        ('Empty', []),
+        ('GreedyEmpty', [('g', 'prophy.array(Empty)')]),
+        ('PaddedGreedyEmpty', [('a', 'prophy.u32'), ('b', 'prophy.u8'), ('g', 'prophy.array(Empty)')]),
+        ('CountedEmpty', [('n', 'prophy.u32'), ('x', 'prophy.array(Empty, bound="n")')]),
+        ('CountedCounted', [('n', 'prophy.u32'), ('y', 'prophy.array(CountedEmpty, bound="n")')]),
+    ])
+
+    def outcome(kind, cls, data, e, extra=None):
+        casej = dict({'schema': 'hand-written descriptor', 'type': cls.__name__, 'data': data.hex() if len(data) < 200 else '%d bytes' % len(data),
+                      'endianness': e, 'directed': kind}, **(extra or {}))
+        chk.count((cls.__name__, kind, data.hex(), e), True)
+        chk.bump('directed:' + kind)
+        box = {}
+
+        def run():
+            box['m'] = cls()
+            return box['m'].decode(data, e)
+        res = with_timeout(20, run)
+        if res[0] == 'timeout':
+            chk.property_violation(casej, {'what': 'decode of %d bytes did not terminate within 20 s' % len(data)})
+        elif res[0] == 'exc' and res[1] != 'ProphyError':
+            chk.property_violation(casej, {'what': 'decode raised %s (only ProphyError is allowed)' % res[1], 'exc': res[1]}, classify_c06)
+        return res, box.get('m'), casej
+
+    for e in ENDIAN:
+        # a greedy array of zero-size elements: any non-empty rest must end in ProphyError, not in an endless loop (fixed by 6530972)
+        outcome('greedy-empty', ns['GreedyEmpty'], b'\x00', e)
+        outcome('greedy-empty', ns['PaddedGreedyEmpty'], ns['PaddedGreedyEmpty']().encode(e), e)
+        # counted arrays of zero-size elements: 16 counters of 65536 behind one counter of 16
+        big = (16).to_bytes(4, 'little' if e == '<' else 'big') + (65536).to_bytes(4, 'little' if e == '<' else 'big') * 16
+        res, m, casej = outcome('D56', ns['CountedCounted'], big, e)
+        if res[0] == 'ok':
+            elements = sum(len(y.x) for y in m.y)
+            if elements > 16 * len(big):
+                chk.property_violation(casej, {'what': 'an input of %d bytes decoded into %d elements: element counts are not bounded by the input' % (len(big), elements),
+                                               'elements': elements, 'input_bytes': len(big)}, classify_c06)
+    # nesting depth: struct S0 { u8 a; }; struct Sk { S(k-1) a; }; every message of every Sk is one byte long
+    import prophy
+    for depth in (100, 300, 500):
+        cls = None
+        for k in range(depth + 1):
+            base = prophy.with_metaclass(prophy.struct_generator, prophy.struct)
+            cls = type(base)('S%d' % k, (base,), {'_descriptor': [('a', prophy.u8 if cls is None else cls)]})
+        for data in (b'\x01', b'', b'\x01\x02'):
+            outcome('D60', cls, data, '<', {'depth': depth, 'recursion_limit': sys.getrecursionlimit()})
 
 
 def run_c06(tier):
@@ -444,6 +602,7 @@ def run_c06(tier):
             if dec != canon_model(c, model):
                 chk.correspondence_mismatch('Py.decode = Message.decode (malformed stream)', casej, dec, model)
         chk.extra['slowest_decode_s'] = round(slow, 4)
+        directed_c06(chk)
     finally:
         corpus.close()
     return chk.finish()
